@@ -24,6 +24,10 @@ class NeedsConcrete(BaseException):
     BaseException so that the repository's `except Exception` blocks cannot swallow it."""
 
 
+class PathTimeout(BaseException):
+    """raised by explore()'s watchdog inside a path that runs past the time limit"""
+
+
 class PathAbort(BaseException):
     """Current path is infeasible / cut by an assumption."""
 
@@ -224,6 +228,16 @@ class SymBool:
         return NotImplemented if c is None else SymBool(z3.Xor(self.t, c))
 
     __rxor__ = __xor__
+
+    def __eq__(self, o):
+        c = self._c(o)
+        return NotImplemented if c is None else SymBool(self.t == c)
+
+    def __ne__(self, o):
+        c = self._c(o)
+        return NotImplemented if c is None else SymBool(z3.Xor(self.t, c))
+
+    __hash__ = object.__hash__
 
     def __invert__(self):
         return SymBool(z3.Not(self.t))
@@ -546,25 +560,51 @@ def explore(fn, max_paths=20000, tlimit=600.0, ieee_div=False, catch=(Exception,
         out = _Count()
     t0 = time.time()
     exhaustive = True
-    while pending:
-        if len(out) >= max_paths or time.time() - t0 > tlimit:
-            exhaustive = False
-            break
-        dec = pending.pop()
-        ctx = Ctx(dec, ieee_div=ieee_div)
-        Ctx.cur = ctx
-        try:
-            v = fn(ctx)
-            out.append(PathResult(ctx, 'ok', v))
-        except PathAbort:
-            pass
-        except NeedsConcrete as e:
-            out.append(PathResult(ctx, 'unsupported', None, e))
-        except catch as e:  # noqa
-            out.append(PathResult(ctx, 'exc', None, e))
-        finally:
-            Ctx.cur = None
-        pending.extend(ctx.pending)
+    # watchdog: a single path that runs past the time limit (slow solver queries inside the code under analysis) is
+    # abandoned and the exploration reported as not exhaustive; only in a process's main thread (signal based)
+    import signal
+    import threading
+    use_alarm = threading.current_thread() is threading.main_thread() and hasattr(signal, 'setitimer')
+
+    def _on_alarm(signum, frame):
+        raise PathTimeout()
+    old_handler = signal.signal(signal.SIGALRM, _on_alarm) if use_alarm else None
+    try:
+        while pending:
+            if len(out) >= max_paths or time.time() - t0 > tlimit:
+                exhaustive = False
+                break
+            dec = pending.pop()
+            ctx = Ctx(dec, ieee_div=ieee_div)
+            Ctx.cur = ctx
+            timed_out = False
+            try:
+                if use_alarm:
+                    signal.setitimer(signal.ITIMER_REAL, max(5.0, tlimit - (time.time() - t0) + 20.0))
+                try:
+                    v = fn(ctx)
+                finally:
+                    if use_alarm:
+                        signal.setitimer(signal.ITIMER_REAL, 0)
+                out.append(PathResult(ctx, 'ok', v))
+            except PathTimeout:
+                timed_out = True
+            except PathAbort:
+                pass
+            except NeedsConcrete as e:
+                out.append(PathResult(ctx, 'unsupported', None, e))
+            except catch as e:  # noqa
+                out.append(PathResult(ctx, 'exc', None, e))
+            finally:
+                Ctx.cur = None
+            if timed_out:
+                exhaustive = False
+                break
+            pending.extend(ctx.pending)
+    finally:
+        if use_alarm:
+            signal.setitimer(signal.ITIMER_REAL, 0)
+            signal.signal(signal.SIGALRM, old_handler)
     return out, exhaustive, time.time() - t0
 
 
